@@ -9,18 +9,19 @@
 (* disagreement; "not accepted" (the log is not consumed to its end) can   *)
 (* only mean a malformed log or a specification bug.                       *)
 (***************************************************************************)
-EXTENDS Integers, Sequences, TLC, Json, J_Prims, J_Build, J_Tables, J_C07, J_C15, J_Text, J_C17, J_C20, J_C04, J_C18, J_C06, J_C16, J_MapBodies
+EXTENDS Integers, Sequences, TLC, Json, J_Prims, J_Build, J_Tables, J_C07, J_C15, J_Text, J_C17, J_C20, J_C04, J_C18, J_C06, J_C16, J_MapBodies, J_Objects
 
 CONSTANT TraceFile
 Log == ndJsonDeserialize(TraceFile)
 
 VARIABLES l,      \* next record to consume
           cov,    \* predicate name -> number of events that exercised its antecedent
-          mem     \* session memory: [sid, snap] - the first observation of every live value of the current session
+          mem     \* session memory: [sid, snap, obj] - the first observation of every live value of the current session (C08)
+                  \* and the abstract state of the session's mutable object (Objects.tla)
 vars == << l, cov, mem >>
 
 \* session state visible to the judge of event e (a new session starts with empty memory)
-MemFor(e) == IF e.sid = mem.sid THEN mem ELSE [sid |-> e.sid, snap |-> << >>]
+MemFor(e) == IF e.sid = mem.sid THEN mem ELSE [sid |-> e.sid, snap |-> << >>, obj |-> NoObj]
 \* C08: a value's observation (serialisation + every accessor) never changes after its first observation,
 \* whatever the caller overwrote in between (Scribble / ScribbleReturned steps of the session)
 JObserve(e, m) ==
@@ -30,6 +31,7 @@ JObserve(e, m) ==
 MemNext(e, m) ==
   IF e.op = "Observe" /\ e.r.has /\ e.h \notin DOMAIN m.snap
   THEN [m EXCEPT !.snap = [k \in (DOMAIN m.snap) \cup {e.h} |-> IF k = e.h THEN e.r.obs ELSE m.snap[k]]]
+  ELSE IF e.op \in {"ObjNew", "ObjCall"} /\ ~(e.r.panic \/ e.r.hang) THEN [m EXCEPT !.obj = ObjMemNext(e, m.obj)]
   ELSE m
 
 Judge(e) ==
@@ -47,6 +49,8 @@ Judge(e) ==
          [] e.op \in {"ByteSweep", "RandomSweep", "CodeSweep"} -> JSweepOutcome(e)
          [] e.op = "MappingBodies" -> JMappingBodies(e)
          [] e.op = "ApiSweep" -> JApiSweep(e)
+         [] e.op = "ObjNew" -> JObjNew(e)
+         [] e.op = "ObjCall" -> JObjCall(e, MemFor(e).obj)
          [] e.op = "SignedProbe" -> JSignedProbe(e)
          [] e.op = "SignBuild" -> JSignBuild(e)
          [] e.op = "EncDec" -> JEncDec(e)
@@ -74,7 +78,7 @@ Bump(c, js) ==
       old == [k \in DOMAIN c |-> IF k \in names THEN c[k] + 1 ELSE c[k]]
   IN [k \in (DOMAIN c \cup names) |-> IF k \in DOMAIN c THEN old[k] ELSE 1]
 
-Init == l = 1 /\ cov = [k \in {} |-> 0] /\ mem = [sid |-> 0, snap |-> << >>]
+Init == l = 1 /\ cov = [k \in {} |-> 0] /\ mem = [sid |-> 0, snap |-> << >>, obj |-> NoObj]
 
 Step ==
   /\ l <= Len(Log)
